@@ -166,7 +166,12 @@ def fp_restrictions(g, scratch, gb):
         elif slot in slots and len(slots[slot]) == 1:
             restr[label] = sorted(slots[slot])
         elif slot in slots:
-            restr[label] = sorted(slots[slot])
+            # the same slot name exists in several containers (size/clear/free/...): choose by container family:
+            # a call through `<x>->list-><slot>` targets the qlist method, otherwise the family of the enclosing function
+            cands = sorted(slots[slot])
+            fam = 'qlist' if re.search(r'\.list\)?\.\w+\s*$', rhs) else label.split('.')[0].split('_')[0]
+            pick = [c for c in cands if c.startswith(fam + '_')]
+            restr[label] = pick if len(pick) == 1 else cands
         else:
             sm2 = re.search(r'(\w+)\s*$', rhs)
             nm = sm2.group(1) if sm2 else None
@@ -309,7 +314,7 @@ def run_group(g, repo=REPO, use_cache=True):
     try:
         gb, key_src, nweave, restr, ilog = build_goto(g, scratch, repo)
         cmd = cbmc_cmd(g, gb)
-        key = hashlib.sha256((key_src + '\0' + ' '.join(cmd[2:]) + '\0' + g['mode'] + json.dumps(g.get('enforce', [])) +
+        key = hashlib.sha256((key_src + '\0' + g['name'] + '\0' + g['entry'] + '\0' + ' '.join(sorted(g['defines'])) + '\0' + ' '.join(cmd[2:]) + '\0' + g['mode'] + json.dumps(g.get('enforce', [])) +
                               json.dumps(g.get('replace', [])) + json.dumps(restr, sort_keys=True) +
                               subprocess.run(['cbmc', '--version'], stdout=subprocess.PIPE).stdout.decode()).encode()).hexdigest()
         cfile = os.path.join(CACHE_DIR, key + '.json')
@@ -317,11 +322,15 @@ def run_group(g, repo=REPO, use_cache=True):
         res['fp_restrictions'] = len(restr)
         res['cmd'] = ' '.join(cmd).replace(scratch, '<scratch>')
         if use_cache and os.environ.get('QV_NOCACHE') != '1' and os.path.exists(cfile):
-            c = json.load(open(cfile))
-            res.update(c)
-            res['cached'] = True
-            res['group'] = g
-            return res
+            try:
+                c = json.load(open(cfile))
+            except Exception:
+                c = None
+            if c:
+                res.update(c)
+                res['cached'] = True
+                res['group'] = g
+                return res
         rc, out, err, secs = run(cmd, timeout=g['timeout'], mem_mb=g['mem'])
         res['solver_s'] = round(secs, 2)
         if rc == 124:
@@ -345,9 +354,11 @@ def run_group(g, repo=REPO, use_cache=True):
             if not any('loop invariant' in o['desc'].lower() or 'loop_invariant' in o['id'] for o in obs):
                 raise Undecided('loop contracts were woven but no loop-invariant obligation was generated')
         canaries = [o for o in obs if o['canary']]
-        dead = [o for o in canaries if o['status'] != 'FAILURE']
-        if g.get('require_canary', True) and not canaries:
-            raise Undecided('harness has no reachability canary')
+        # the end-of-harness canary must fire in every instance; the others must fire in at least one
+        # instance of the group family (checked by family_vacuity over all instances that were run)
+        dead = [o for o in canaries if o['status'] != 'FAILURE' and 'harness end reachable' in o['desc']]
+        if g.get('require_canary', True) and not any('harness end reachable' in o['desc'] for o in canaries):
+            raise Undecided('harness has no end-of-harness reachability canary')
         if dead:
             raise Undecided('vacuous: canary not reachable: ' + '; '.join(o['desc'] for o in dead))
         bad = [o for o in obs if not o['canary'] and o['status'] == 'FAILURE']
@@ -360,7 +371,9 @@ def run_group(g, repo=REPO, use_cache=True):
         if res['status'] == 'ok':
             os.makedirs(CACHE_DIR, exist_ok=True)
             slim = {k: res[k] for k in ('status', 'obligations', 'solver_s', 'woven_edits', 'fp_restrictions', 'cmd')}
-            json.dump(slim, open(cfile, 'w'))
+            tmpf = cfile + '.%d.tmp' % os.getpid() + str(time.time())
+            json.dump(slim, open(tmpf, 'w'))
+            os.replace(tmpf, cfile)
     except Undecided as e:
         res['status'] = 'undecided'
         res['reason'] = str(e)
@@ -368,6 +381,20 @@ def run_group(g, repo=REPO, use_cache=True):
         res['wall_s'] = round(time.time() - t0, 2)
         shutil.rmtree(scratch, ignore_errors=True)
     return res
+
+
+def family_vacuity(results):
+    """canaries (other than the end-of-harness one) must be reachable in at least one instance of their family"""
+    fam = {}
+    for r in results:
+        if r['status'] == 'undecided' and not r['obligations']:
+            continue
+        base = r['name'].split('@')[0]
+        for o in r['obligations']:
+            if o['canary']:
+                k = (base, o['desc'])
+                fam[k] = fam.get(k, False) or o['status'] == 'FAILURE'
+    return [k for k, fired in fam.items() if not fired]
 
 
 # ------------------------------------------------------------------ witness + native replay
@@ -657,6 +684,10 @@ def check_property(prop, tier, groups, propmeta, seed=0):
         rc = 1
     for r in undec:
         print('UNDECIDED: property=%s group=%s %s' % (prop, r['name'], r.get('reason', '')))
+        if rc == 0:
+            rc = 2
+    for (base, desc) in family_vacuity(results):
+        print('UNDECIDED: property=%s group-family=%s vacuous: canary never reachable in any instance: %s' % (prop, base, desc))
         if rc == 0:
             rc = 2
     wall = time.time() - t0
